@@ -2,6 +2,7 @@ use crate::chess::bitboard::{bitboards, Bitboard};
 use crate::chess::movegen::{attackers, pins, tables};
 use crate::chess::moves::MoveList;
 use crate::chess::square::{squares, Square};
+use crate::chess::piece::{Piece, PieceKind};
 use crate::chess::{game::Game, moves::Move, piece::PromotionPieceKind};
 
 pub struct MovegenCache {
@@ -260,6 +261,10 @@ fn generate_pawn_captures(
                     board_without_en_passant_participants
                         .remove_at(potential_en_passant_capture_start);
                     board_without_en_passant_participants.remove_at(captured_pawn);
+                    board_without_en_passant_participants.set_at(
+                        en_passant_target,
+                        Piece::new(game.player, PieceKind::Pawn),
+                    );
 
                     let king_in_check = attackers::generate_attackers_of(
                         &board_without_en_passant_participants,
